@@ -16,6 +16,9 @@ CONSTANTS
   BoundaryGuard = "positive_in_log"
   UpdateArg = "kept"
   TrackArg = FALSE
+  FitEntry = "recompile"
+  FileRoute = "as_api"
+  Files <- MCNoFiles
   ModeCalls <- MCModeCalls
   InvalidModes <- MCInvalidOne
   ObsParams <- MCObsParams
